@@ -27,6 +27,17 @@ func vpSymInt(tag string, sym bool, fixed int) int {
 // count (for N >= 10; N in {10, 11} uses 0 because the written prefix must be
 // self-consistent).
 func vpRecord(tag string, N, txt, ints, blocks int) *BED {
+	b := vpRecordM(tag, N, txt, ints, blocks)
+	if vpCaseOr("junk", 0) == 1 {
+		// every field populated, N says how many count: the writer must go
+		// by N, not by which fields happen to be non-zero
+		b = vpRecordM(tag, 12, txt, ints, max(blocks, 1))
+		b.N = N
+	}
+	return b
+}
+
+func vpRecordM(tag string, N, txt, ints, blocks int) *BED {
 	b := &BED{N: N}
 	b.Chrom = vpText(tag+"chrom", min(txt, 2))
 	if len(b.Chrom) > 0 {
@@ -93,6 +104,27 @@ func vpFirstN(b *BED) *BED {
 	}
 	if c.N < 11 {
 		c.BlockSizes = nil
+	}
+	if c.N < 10 {
+		c.BlockCount = 0
+	}
+	if c.N < 9 {
+		c.ItemRGB = [3]byte{}
+	}
+	if c.N < 8 {
+		c.ThickEnd = 0
+	}
+	if c.N < 7 {
+		c.ThickStart = 0
+	}
+	if c.N < 6 {
+		c.Strand = ""
+	}
+	if c.N < 5 {
+		c.Score = 0
+	}
+	if c.N < 4 {
+		c.Name = ""
 	}
 	return &c
 }
